@@ -80,10 +80,13 @@ M(pat, i, path, j, mode, cs) ==
 
 ---------------------------------------------------------------------------
 (* Configuration-dependent normalisation *)
-Tok3 == {"%41", "%61", "%2F", "%2D"}
-DecT(t) == CASE t = "%41" -> <<"A">> [] t = "%61" -> <<"a">> [] t = "%2F" -> <<"/">> [] t = "%2D" -> <<"-">> [] OTHER -> <<t>>
+\* "%E2%84%AA" is the KELVIN SIGN (U+212A, three bytes, a letter whose Unicode lower case "k" has ONE byte): the specification
+\* folds ASCII letters only, so it stays what it is.  Matching works on bytes, so it is three characters "B+E2" "B+84" "B+AA" here
+\* (the harness renders an element "B+XX" as that byte)
+Tok3 == {"%41", "%61", "%2F", "%2D", "%E2%84%AA"}
+DecT(t) == CASE t = "%41" -> <<"A">> [] t = "%61" -> <<"a">> [] t = "%2F" -> <<"/">> [] t = "%2D" -> <<"-">> [] t = "%E2%84%AA" -> <<"B+E2","B+84","B+AA">> [] OTHER -> <<t>>
 FlatT(t) == CASE t = "%41" -> <<"%","4","1">> [] t = "%61" -> <<"%","6","1">> [] t = "%2F" -> <<"%","2","F">>
-              [] t = "%2D" -> <<"%","2","D">> [] OTHER -> <<t>>
+              [] t = "%2D" -> <<"%","2","D">> [] t = "%E2%84%AA" -> <<"%","E","2","%","8","4","%","A","A">> [] OTHER -> <<t>>
 Decode(path, unesc) == Concat([i \in 1..Len(path) |-> IF unesc THEN DecT(path[i]) ELSE FlatT(path[i])])
 
 \* the pattern as registered under cfg: trailing slashes of the pattern text are trimmed unless StrictRouting
